@@ -202,6 +202,18 @@ def correspondence(ctx, pf, cases):
             if len(exp) != len(got) or not all(abs(g - e) <= 1e-9 * max(1.0, scale) for g, e in zip(got, exp)):
                 ctx.violation(key, f'{wave} time function at {ts}: impl {got} model {exp}', dict(replay, ts=ts),
                               kind='obligation')
+            # the time axis is data: integer-typed instants (np.arange) must give the values of the same instants as binary64, and a
+            # scalar must give what the one-element array gives
+            try:
+                ti = np.arange(-3, 5)
+                gi = np.asarray(f(ti), dtype=float)
+                gf = np.asarray(f(ti.astype(float)), dtype=float)
+                ctx.count('time-function:integer-typed-instants')
+                if gi.shape != gf.shape or np.max(np.abs(gi - gf)) > 1e-12 * max(1.0, scale):
+                    ctx.violation('C08:time-function-depends-on-the-dtype-of-t', f'{wave} {prm}: values at the integer-typed instants {ti.tolist()} '
+                                  f'{gi.tolist()} differ from the values at the same instants as floats {gf.tolist()}', dict(replay, ts=ti.tolist()))
+            except Exception as e:  # noqa: BLE001
+                ctx.violation(f'C08:time-function-raises-{type(e).__name__}', f'{wave} on an integer-typed time array: {str(e)[:100]}', replay)
 
 
 # ------------------------------------------------------------------ numerical search on the implementation
